@@ -349,6 +349,29 @@ fn run_break<F: boxworks::FontRepo>(
         lb.break_line(font_repo, &mut v_list, &mut list_b);
     });
     if let Err(p) = rb {
+        // Sums of glue components are plain (unchecked) integer additions in TeX as well: when
+        // the components of one paragraph can add up beyond 2^31-1 sp (e.g. \\spaceskip shrink
+        // scaled by 1000/sf with \\sfcode=1, a dozen times on a line) TeX's own arithmetic
+        // overflows and the instance is outside the range in which the property is defined.
+        let total = |f: &dyn Fn(&common::Glue) -> i64| -> i64 {
+            h_list
+                .iter()
+                .map(|n| match n {
+                    ds::Horizontal::Glue(g) => f(&g.value).abs(),
+                    _ => 0,
+                })
+                .sum()
+        };
+        let limit = i32::MAX as i64;
+        if p.message.contains("overflow")
+            && (total(&|g| g.width.0 as i64) > limit
+                || total(&|g| g.stretch.0 as i64) > limit
+                || total(&|g| g.shrink.0 as i64) > limit)
+        {
+            obs.skip("glue totals of the paragraph exceed 2^31-1 sp (TeX's unchecked sums overflow too)");
+            out.failed = true;
+            return out;
+        }
         obs.repo_panic(&p, base("break_line panicked", json!({"breakpoints": breaks})));
         out.failed = true;
         return out;
